@@ -223,6 +223,16 @@ class CaseOracle:
                     if ok is not None and origin not in ok:
                         out.append(V("C04", "constructor_input_from_invisible_registration", {"ctor": c, "type": t, "got": origin, "visible": sorted(ok), "req": req_brief(req)}))
 
+        if req.get("sub") == "host":
+            # host probes: the routing verdicts on them are verdicts on the domain guard semantics (C20)
+            self.stats["host_probes"] = self.stats.get("host_probes", 0) + 1
+            host = req.get("host") or ""
+            cause = "host_with_several_trailing_dots" if host.split(":")[0].endswith("..") else ("no_host_header" if req.get("no_host") else "host_edit")
+            for v in out:
+                if v["prop"] == "C07":
+                    v["prop"] = "C20"
+                    v["sig"] = {"part": "e2e_match", "rule": v["sig"]["rule"], "cause": cause}
+                    v["detail"]["guard"] = req.get("guard")
         # ---- C05 / C06 for requests that are routed to a known handler
         if hid is not None and exp["kind"] == "handler":
             out += self._check_order_and_errors(req, rec, hid, evs, fails, resp)
